@@ -4,8 +4,9 @@
 
    clause 0  unique                  no address is reported for two subscribers (every step)
    clause 1  restart_preserves       at a restart: every subscriber recorded in the store (record
-                                     inside the pool, address named by no other record) that held an
-                                     address before the stop holds the same address afterwards
+                                     inside the pool, address named by no other record, no dropped
+                                     conflicting announcement pending for it) that held an address
+                                     before the stop holds the same address afterwards
    clause 2  write_failure_agreement a call whose store write failed leaves memory and store in
                                      agreement about that subscriber (if they agreed before)
    clause 3  remote_applies          after a change announced by another node the subscriber holds
@@ -20,8 +21,12 @@ From Verif Require Import Base.Word Model.PoolMap Model.Geometry Model.PoolSpec 
 Import ListNotations.
 Local Open Scope N_scope.
 
-Record dsst := { ds_cfg : cfg; ds_mem : list (N * N); ds_store : list (N * (N * N * N)); ds_epoch : N }.
-Definition dsinit (c : cfg) : dsst := {| ds_cfg := c; ds_mem := []; ds_store := []; ds_epoch := 2 |}.
+(* [ds_taint]: subscribers for which a remote put could not be applied (the announced unit is held by
+   another subscriber).  The monitor accepted that drop (clause 3 cannot be demanded), so memory and
+   store knowingly disagree about such a subscriber: it is outside the restart claim until memory and
+   store agree about it again. *)
+Record dsst := { ds_cfg : cfg; ds_mem : list (N * N); ds_store : list (N * (N * N * N)); ds_epoch : N; ds_taint : list N }.
+Definition dsinit (c : cfg) : dsst := {| ds_cfg := c; ds_mem := []; ds_store := []; ds_epoch := 2; ds_taint := [] |}.
 
 Fixpoint assoc {V} (k : N) (l : list (N * V)) : option V :=
   match l with [] => None | (k', v) :: tl => if k' =? k then Some v else assoc k tl end.
@@ -47,12 +52,12 @@ Definition named_by_other (c : cfg) (st : list (N * (N * N * N))) (h u : N) : bo
 Definition held_by_other (mem : list (N * N)) (h u : N) : bool :=
   existsb (fun p => negb (fst p =? h) && (snd p =? u)) mem.
 
-Definition restart_ok (c : cfg) (st : list (N * (N * N * N))) (before after : list (N * N)) : bool :=
+Definition restart_ok (c : cfg) (taint : list N) (st : list (N * (N * N * N))) (before after : list (N * N)) : bool :=
   forallb (fun x =>
     match rec_unit c x with
     | None => true
     | Some u =>
-        if named_by_other c st (fst x) u then true
+        if named_by_other c st (fst x) u || memN (fst x) taint then true
         else match assoc (fst x) before with
              | None => true
              | Some b => opt_eqb (assoc (fst x) after) (Some b)
@@ -63,9 +68,12 @@ Definition agree_at (c : cfg) (mem : list (N * N)) (st : list (N * (N * N * N)))
   opt_eqb (assoc h mem) (match assoc h st with Some (a, _, _) => Some a | None => None end).
 
 Definition upd (s : dsst) (o : dout) : dsst :=
-  {| ds_cfg := ds_cfg s; ds_mem := o_mem o; ds_store := o_store o; ds_epoch := ds_epoch s |}.
+  {| ds_cfg := ds_cfg s; ds_mem := o_mem o; ds_store := o_store o; ds_epoch := ds_epoch s;
+     ds_taint := filter (fun h => negb (agree_at (ds_cfg s) (o_mem o) (o_store o) h)) (ds_taint s) |}.
 Definition upd_epoch (s : dsst) (e : N) : dsst :=
-  {| ds_cfg := ds_cfg s; ds_mem := ds_mem s; ds_store := ds_store s; ds_epoch := e |}.
+  {| ds_cfg := ds_cfg s; ds_mem := ds_mem s; ds_store := ds_store s; ds_epoch := e; ds_taint := ds_taint s |}.
+Definition add_taint (s : dsst) (h : N) : dsst :=
+  {| ds_cfg := ds_cfg s; ds_mem := ds_mem s; ds_store := ds_store s; ds_epoch := ds_epoch s; ds_taint := h :: ds_taint s |}.
 
 Definition failure_ok (s : dsst) (h : N) (o : dout) : bool :=
   negb (agree_at (ds_cfg s) (ds_mem s) (ds_store s) h) || agree_at (ds_cfg s) (o_mem o) (o_store o) h.
@@ -91,12 +99,12 @@ Definition daccept (s : dsst) (op : dop) (o : dout) : dsst + N :=
     | DStats, RStats _ _ _ _ => inl (upd s o)
     | DAdvance, REpoch e => inl (upd_epoch (upd s o) e)
     | DRestart _, ROk =>
-        if restart_ok c (ds_store s) (ds_mem s) (o_mem o) then inl (upd_epoch (upd s o) 2) else inr 1
+        if restart_ok c (ds_taint s) (ds_store s) (ds_mem s) (o_mem o) then inl (upd_epoch (upd s o) 2) else inr 1
     | DRemotePut h a pl ep, ROk =>
         match canon c a pl with
         | None => inl (upd s o)
         | Some u =>
-            if held_by_other (ds_mem s) h u then inl (upd s o)
+            if held_by_other (ds_mem s) h u then inl (upd (add_taint s h) o)
             else if c_lease c && (2 <=? ds_epoch s) && (ep <? ds_epoch s - 2) then inl (upd s o)
             else if opt_eqb (assoc h (o_mem o)) (Some u) then inl (upd s o) else inr 3
         end
